@@ -54,7 +54,14 @@ class _TOpaque(Ty):
     def wrap(self, terms): return VOpaque('heap', terms[0])
 
 
-INT, BOOL, STR, BYTES, NONE, OPAQUE = _TInt(), _TBool(), _TStr(), _TBytes(), _TNone(), _TOpaque()
+class _TDyn(Ty):
+    """A dynamically typed Python value of which only None / int / str are looked into:
+    kind 0 = None, 1 = int, 2 = str, 3 = anything else (identity in the int component)."""
+    def comps(self): return [('?kind', IntSort), ('.s', StringSort), ('.i', IntSort)]
+    def wrap(self, terms): return VDyn(terms[0], terms[1], terms[2])
+
+
+INT, BOOL, STR, BYTES, NONE, OPAQUE, DYN = _TInt(), _TBool(), _TStr(), _TBytes(), _TNone(), _TOpaque(), _TDyn()
 
 
 class Ref(Ty):
@@ -280,6 +287,17 @@ class VOpaque(V):
             raise OutOfSubset('opaque value (%s) stored where a term is needed' % self.tag)
         return [self.term]
     def __repr__(self): return 'VOpaque(%s)' % self.tag
+
+
+class VDyn(V):
+    T = None
+    def __init__(self, kind, s, i):
+        self.kind, self.s, self.i = kind, s, i
+    def terms(self): return [self.kind, self.s, self.i]
+    def __repr__(self): return 'VDyn(%s)' % self.kind
+
+
+VDyn.T = DYN
 
 
 class VFunc(V):
